@@ -2018,6 +2018,12 @@ class mulgrid(object):
         layer_mapping = self.layer_mapping(geo)
         for dest in geo.block_name_list:
             destcol, destlayer = geo.column_name(dest), geo.layer_name(dest)
+            if destlayer not in geo.layer or not (destcol in geo.column or
+                                                  destcol == geo.atmosphere_column_name):
+                # block name was altered by fix_blockname(): take the layer and
+                # column names from the original name
+                unfixed = unfix_blockname(dest)
+                destcol, destlayer = geo.column_name(unfixed), geo.layer_name(unfixed)
             if destlayer == geo.layerlist[0].name:
                 sourcelayer = self.layerlist[0].name # atmosphere layer
                 if self.atmosphere_type == 0:
